@@ -71,6 +71,21 @@ CHECKS = {
    "DESIGN.md section 4 / C20",
    "single-threaded endpoints; bounds on virtual time; loopback delivery treated as at most one tick late.",
    "runtime monitoring: quiescent-point set equality + event alternation model + end-to-end history oracles over real sockets"),
+ "C11": ("exploration",
+   "Star topology (2-8 clients, independent fault profiles, joins / leaves, hostile ids, one client with a permanently stalled ordered message) with unicast, broadcast and broadcast_except; payload headers carry the addressee; 'obtained only if addressed, intact, at most once, only under the sender's id' is unconditional, 'exactly once within the bound' holds for undisturbed clients; healthy clients keep their C01/C02 oracles.",
+   "DESIGN.md section 4 / C11",
+   "all messages >= 24 bytes so the address is in the header; bounded liveness computed from undisturbed clients only.",
+   "runtime monitoring: addressed-payload history oracle + per-client channel oracles under independent fault schedules"),
+ "C12": ("exploration",
+   "Random public-API sequences (add/remove, disconnect, local clients, status setters, send/receive/process incl. hostile bytes, over-budget sends, update) against a reference state machine Absent | Alive | Dead(first reason) per id and per client; after every call: dead stays dead with the same reason, emits / yields / accepts nothing (accepting observed through the read-only hooks), events alternate per id and removals carry the first reason.",
+   "DESIGN.md section 4 / C12",
+   "'accepts no packets' is observed through hook-visible state (pending acks, receive memory, sent-packet table); panics on hostile bytes are left to C06.",
+   "runtime monitoring: lock-step reference state machine over generated API call sequences"),
+ "C14": ("exploration",
+   "Every get_packets_to_send call of simulated sessions with budgets {0,1,100,1199,1200,1201,2500,60000} and 1-4 channels in all orders is decoded and judged: payload bytes <= budget; a due unacknowledged reliable item may be absent only if the budget left after its channel was served is smaller than its size; an unreliable message is whole or absent, absent only if it did not fit, never sent later.",
+   "DESIGN.md section 4 / C14",
+   "only necessary conditions independent of the iteration order inside a channel; slices whose acknowledgement state is uncertain are skipped, never judged.",
+   "runtime monitoring: per-call budget attribution oracle over decoded packets"),
 }
 
 NOT_YET = {}
